@@ -76,7 +76,7 @@ async function main () {
   const id = args[0]
   let tier = process.env.VERIF_TIER || 'quick'
   let replayFile = null
-  let W = Math.min(16, os.cpus().length)
+  let W = Number(process.env.VERIF_WORKERS) || Math.min(16, os.cpus().length)
   for (let i = 1; i < args.length; i++) {
     if (args[i] === '--tier') tier = args[++i]
     else if (args[i] === '--replay') replayFile = args[++i]
